@@ -524,7 +524,7 @@ def gen_session(rng, n_calls):
     for _ in range(rng.randint(1, 2)):
         make({'kind': 'regexp', 'tree': genrx.tree(rng, rng.randint(0, 6), list(sigma))})
     for spec in list(made):
-        if spec['kind'] in ('dfa', 'nfa', 'pda', 'cfg') and rng.random() < 0.25:
+        if spec['kind'] in ('dfa', 'nfa', 'pda', 'cfg', 'regexp') and rng.random() < (0.6 if spec['kind'] == 'regexp' else 0.25):
             tw = edits.twin(rng, spec)      # differs in one component only: q0, F or the start variable
             if tw:
                 make(tw)
@@ -571,7 +571,7 @@ def gen_session(rng, n_calls):
             kinds[st['id']] = o.out
         steps.append(st)
     call_idx = [i for i, s in enumerate(steps) if s['op'] not in ('make', 'text_check', 'edit')]
-    solo = sorted(rng.sample(call_idx, max(1, len(call_idx) // 8)))
+    solo = sorted(rng.sample(call_idx, max(1, len(call_idx) // 3)))
     return {'sigma': sigma, 'steps': steps, 'solo': solo}
 
 
